@@ -58,6 +58,13 @@ pub struct Inner {
     /// simulated latency of the mutating calls: the write is performed at once and the call returns this many
     /// (tokio) milliseconds later
     pub write_latency_ms: u64,
+    /// simulated latency BEFORE the write: the mutating call waits this many (tokio) milliseconds and performs
+    /// its write only then (a backend whose writer thread is busy); whoever does not await the call sees nothing yet
+    pub write_delay_ms: u64,
+    /// when not empty, the k-th mutating call waits `write_delay_pattern[k % len]` ms instead (calls overtake each other
+    /// unless the caller awaits each one, as a backend with several writer threads allows)
+    pub write_delay_pattern: Vec<u64>,
+    pub delayed_calls: u64,
 }
 
 /// Process-wide order of successful storage writes (all stores, all threads).
@@ -143,6 +150,22 @@ impl ModelStore {
         Ok(())
     }
 
+    async fn pre_delay(&self) {
+        let d = {
+            let mut g = self.inner.lock();
+            let k = g.delayed_calls as usize;
+            g.delayed_calls += 1;
+            if g.write_delay_pattern.is_empty() {
+                g.write_delay_ms
+            } else {
+                g.write_delay_pattern[k % g.write_delay_pattern.len()]
+            }
+        };
+        if d > 0 {
+            tokio::time::sleep(std::time::Duration::from_millis(d)).await;
+        }
+    }
+
     async fn maybe_park(&self, park: bool) {
         let latency = self.inner.lock().write_latency_ms;
         if latency > 0 {
@@ -190,6 +213,7 @@ impl Storage for ModelStore {
         keys: impl Iterator<Item = Key> + Send,
     ) -> Result<(), BulkMutationError<Self::Error>> {
         let keys: Vec<Key> = keys.collect();
+        self.pre_delay().await;
         let gate = self.gate().map_err(BulkMutationError::empty_with_error)?;
         let (keep, fail, park): (Box<dyn Fn(usize) -> bool + Send>, bool, bool) = match gate {
             Gate::Proceed { park } => (Box::new(|_| true), false, park),
@@ -220,6 +244,7 @@ impl Storage for ModelStore {
     }
 
     async fn put(&self, keyspace: &str, document: Document) -> Result<(), Self::Error> {
+        self.pre_delay().await;
         match self.gate()? {
             Gate::Fail(_) => Err(StoreError::Injected),
             Gate::Proceed { park } => {
@@ -245,6 +270,7 @@ impl Storage for ModelStore {
         documents: impl Iterator<Item = Document> + Send,
     ) -> Result<(), BulkMutationError<Self::Error>> {
         let docs: Vec<Document> = documents.collect();
+        self.pre_delay().await;
         let gate = self.gate().map_err(BulkMutationError::empty_with_error)?;
         let (keep, fail, park): (Box<dyn Fn(usize) -> bool + Send>, bool, bool) = match gate {
             Gate::Proceed { park } => (Box::new(|_| true), false, park),
@@ -274,6 +300,7 @@ impl Storage for ModelStore {
     }
 
     async fn mark_as_tombstone(&self, keyspace: &str, doc_id: Key, timestamp: HLCTimestamp) -> Result<(), Self::Error> {
+        self.pre_delay().await;
         match self.gate()? {
             Gate::Fail(_) => Err(StoreError::Injected),
             Gate::Proceed { park } => {
@@ -296,6 +323,7 @@ impl Storage for ModelStore {
         documents: impl Iterator<Item = DocumentMetadata> + Send,
     ) -> Result<(), BulkMutationError<Self::Error>> {
         let docs: Vec<DocumentMetadata> = documents.collect();
+        self.pre_delay().await;
         let gate = self.gate().map_err(BulkMutationError::empty_with_error)?;
         let (keep, fail, park): (Box<dyn Fn(usize) -> bool + Send>, bool, bool) = match gate {
             Gate::Proceed { park } => (Box::new(|_| true), false, park),
